@@ -8,7 +8,7 @@
     values), every combination of options, every grace period and interval, every fault plan and
     cancellation point, every clock. [file s k] is the value of the terminal key k.
     [jt o clk s0 k] = deleting k is justified at one of the readings: exists i, justified o (clk i) s0 k. *)
-From CM Require Import Lib.Str Lib.CleanSyntax Gen.Consts Clean.Model Clean.Proofs Clean.Prog Clean.Check Clean.SpecProofs Clean.Concurrent Clean.Interfere Clean.Effective.
+From CM Require Import Lib.Str Lib.CleanSyntax Gen.Consts Clean.Model Clean.Proofs Clean.Prog Clean.Check Clean.SpecProofs Clean.Concurrent Clean.Interfere Clean.Effective Clean.EffectiveCerts.
 From Coq Require Import String Ascii.
 Open Scope Z_scope.
 
@@ -303,6 +303,51 @@ Theorem C18_stale_staples_removed : forall e o clk s0 a v c,
   forall k, covers a k = true -> lookup (sto (snd (clean e o clk s0))) k = None.
 Proof. exact stale_staples_removed. Qed.
 Print Assumptions C18_stale_staples_removed.
+
+(** ** ... and the same for certificates: in a run with certificates on, no interval check, no storage fault and
+    no cancellation, on a storage in which every X.crt directly in a site folder is a parseable certificate
+    file ([crt_wf]; an unparseable one makes deleteExpiredCerts return at that point -- [ex_run_aborts_at_malformed])
+    and certificates/, the issuer folder and the site folder are not files: X.crt, X.key and X.json
+    ([trio]) of every certificate that is expired for the grace period at every reading of the clock are gone
+    afterwards, with everything below them *)
+Theorem C18_expired_cert_assets_removed : forall e o clk s0 ik sk a v c,
+  no_faults e -> do_certs o = true -> interval o <= 0 -> crt_wf s0 ->
+  notfile s0 spec_certs -> child spec_certs ik -> child ik sk -> notfile s0 ik -> notfile s0 sk ->
+  child sk a -> seqb (path_ext a) spec_ext_crt = true -> file s0 a = Some (v, c) ->
+  (forall i, spec_expired (clk i) (grace o) c = true) ->
+  forall x, In x [a; trim_suffix spec_ext_crt a ++ spec_ext_key; trim_suffix spec_ext_crt a ++ spec_ext_json] ->
+  forall k, covers x k = true -> lookup (sto (snd (clean e o clk s0))) k = None.
+Proof. exact expired_cert_assets_removed. Qed.
+Print Assumptions C18_expired_cert_assets_removed.
+
+(** ... and a site folder in which everything is (or lies under) X.crt, X.key or X.json of such certificates IS
+    removed: nothing is left at or below certificates/<issuer>/<site> (the emptied folder is deleted) *)
+Theorem C18_expired_site_folder_removed : forall e o clk s0 ik sk,
+  no_faults e -> do_certs o = true -> interval o <= 0 -> crt_wf s0 ->
+  notfile s0 spec_certs -> child spec_certs ik -> child ik sk -> notfile s0 ik -> notfile s0 sk ->
+  (forall k, under sk k = true -> lookup s0 k <> None ->
+     exists a v c x, child sk a /\ seqb (path_ext a) spec_ext_crt = true /\ lookup s0 a = Some (File v c) /\
+                     (forall i, spec_expired (clk i) (grace o) c = true) /\
+                     In x [a; trim_suffix spec_ext_crt a ++ spec_ext_key; trim_suffix spec_ext_crt a ++ spec_ext_json] /\
+                     covers x k = true) ->
+  forall k, covers sk k = true -> lookup (sto (snd (clean e o clk s0))) k = None.
+Proof. exact expired_site_folder_removed. Qed.
+Print Assumptions C18_expired_site_folder_removed.
+
+(** ** "expired longer ago than the grace period" in terms of the certificate's own NotAfter (an independent
+    reading of the X.509 field), not of the code's [expiresAt]: what the cleaner may delete ([spec_expired],
+    the clause of [justified]) is past its NotAfter by MORE than the grace period; and everything past it by
+    the grace period plus one second qualifies *)
+Theorem C18_expired_is_past_not_after : forall now gr c na, as_cert c = Some na ->
+  (spec_expired now gr c = true -> gr < now - na) /\
+  (gr + second <= now - na -> spec_expired now gr c = true).
+Proof.
+  intros now gr c na A. unfold spec_expired, expires_at. rewrite A.
+  assert (S : 0 < second) by reflexivity.
+  pose proof (Z.div_mod na second ltac:(lia)) as D. pose proof (Z.mod_pos_bound na second S) as B.
+  rewrite Z.leb_le. split; intros H; nia.
+Qed.
+Print Assumptions C18_expired_is_past_not_after.
 
 (** ** the tie to the source text (translator, every run): the literals and comparison operators
     ([consts_ok]) and the control-flow shape ([consts_shape_ok]) that harness/cmd/consts/c18.go reads
@@ -599,3 +644,30 @@ Proof.
   vm_compute. reflexivity.
 Qed.
 Print Assumptions C18_negative_grace_refuted.
+
+(** hypotheses of the effectiveness theorems for certificates are met by the example storage without the
+    malformed site (computable sufficient condition [crt_wfb] for [crt_wf]): the site folder of the long-expired
+    certificate is gone after the run *)
+Definition ex_opts_ni : opts := Opts 0 true true (30 * day) (s2k "me").
+Example ex_dead_folder_removed : forall k, covers (s2k "certificates/iss/dead.example") k = true ->
+  lookup (sto (snd (clean ex_env ex_opts_ni (at_ T) ex_store2))) k = None.
+Proof.
+  apply (C18_expired_site_folder_removed ex_env ex_opts_ni (at_ T) ex_store2 (s2k "certificates/iss")).
+  - repeat split.
+  - reflexivity.
+  - vm_compute. discriminate.
+  - apply crt_wfb_sound. vm_compute. reflexivity.
+  - intros v c. vm_compute. discriminate.
+  - exists (s2k "iss"). split; reflexivity.
+  - exists (s2k "dead.example"). split; reflexivity.
+  - intros v c. vm_compute. discriminate.
+  - intros v c. vm_compute. discriminate.
+  - intros k U Lk.
+    exists (s2k "certificates/iss/dead.example/dead.example.crt"), 3, (crt (T - 31 * day)).
+    destruct (lookup ex_store2 k) as [n|] eqn:L; [|congruence]. apply lookup_in in L.
+    vm_compute in L.
+    repeat (destruct L as [<-|L]; [first [discriminate U | idtac]|]); try contradiction.
+    + eexists. repeat split; [exists (s2k "dead.example.crt"); split; reflexivity | left; reflexivity | reflexivity].
+    + eexists. repeat split; [exists (s2k "dead.example.crt"); split; reflexivity | right; left; reflexivity | reflexivity].
+    + eexists. repeat split; [exists (s2k "dead.example.crt"); split; reflexivity | right; right; left; reflexivity | reflexivity].
+Qed.
